@@ -16,6 +16,7 @@ Definition E_batch_size : N := 5.      (* C18: batch longer than the configured 
 Definition E_seqno : N := 6.           (* C18: batch height is not previous height + 1 *)
 Definition E_not_current : N := 7.     (* C18: batched transaction is not the one currently held for its slot *)
 Definition E_commit_nonce : N := 8.    (* C18: commit nonce moved without a commit that justifies it *)
+Definition E_below_ledger : N := 9.    (* C18: batched a nonce below the nonce the ledger reports for the account *)
 Definition E_lookup : N := 11.         (* C19: GetTransaction(h) returned a transaction with another hash *)
 Definition E_lost : N := 12.           (* C19: a held transaction disappeared without commit / supersede / age eviction / restart *)
 Definition E_not_admitted : N := 13.   (* C19: a fresh, non-stale transaction was not taken *)
@@ -39,7 +40,13 @@ Section Spec.
   Definition slot_held (o : obs) (sl : slot) : bool :=
     existsb (fun t => slot_eqb (slot_of t) sl && held o t) univ.
 
-  Definition countB (B : list slot) (a : N) : N := len (filter (fun sl => fst sl =? a) B).
+  (** the first nonce from [c] on that is not in [B]: the next nonce the account may batch *)
+  Fixpoint first_free (B : list slot) (a c : N) (fuel : nat) : N :=
+    match fuel with
+    | O => c
+    | S f => if mem slot_eqb (a, c) B then first_free B a (c + 1) f else c
+    end.
+  Definition next_batch (cm : N -> N) (B : list slot) (a : N) : N := first_free B a (cm a) (length B).
 
   (** walker state *)
   Record wst := mkW {
@@ -47,16 +54,17 @@ Section Spec.
     w_seq : N;                (* height of the last batch / last reset *)
     w_sub : list tx;          (* handed to the pool since the last restart *)
     w_arr : list (tx * N);    (* clock at which a held transaction was taken *)
+    w_led : list (N * N);     (* what the ledger oracle currently reports *)
     w_prev : obs
   }.
 
   Definition obs0 : obs := mkObs [] (map (fun _ => 0) accts) (map (fun _ => 0) accts) false false (map (fun _ => None) univ) 0 [].
-  Definition w0 : wst := mkW [] 0 [] [] obs0.
+  Definition w0 : wst := mkW [] 0 [] [] [] obs0.
 
   Definition flag (b : bool) (code : N) : list N := if b then [code] else [].
 
   (** the per-transaction rules of one batch; [cm] is the commit nonce in force *)
-  Fixpoint check_txs (cm : N -> N) (sub : list tx) (B : list slot) (txs : list tx) : list N * list slot :=
+  Fixpoint check_txs (lg : list (N * N)) (cm : N -> N) (sub : list tx) (B : list slot) (txs : list tx) : list N * list slot :=
     match txs with
     | [] => ([], B)
     | t :: r =>
@@ -65,13 +73,14 @@ Section Spec.
         let e := flag (n <? cm a) E_below_commit
                  ++ flag (mem slot_eqb (a, n) B) E_double
                  ++ flag (negb ((n =? cm a) || ((1 <=? n) && mem slot_eqb (a, n - 1) B))) E_gap
-                 ++ flag (negb (mem tx_eqb t sub)) E_provenance in
-        let '(es, B') := check_txs cm sub ((a, n) :: B) r in
+                 ++ flag (negb (mem tx_eqb t sub)) E_provenance
+                 ++ flag (n <? lookup0 a lg) E_below_ledger in
+        let '(es, B') := check_txs lg cm sub ((a, n) :: B) r in
         (e ++ es, B')
     end.
 
-  Definition check_batch (cm : N -> N) (sub : list tx) (B : list slot) (seq : N) (b : batch) : list N * list slot :=
-    let '(es, B') := check_txs cm sub B (snd b) in
+  Definition check_batch (lg : list (N * N)) (cm : N -> N) (sub : list tx) (B : list slot) (seq : N) (b : batch) : list N * list slot :=
+    let '(es, B') := check_txs lg cm sub B (snd b) in
     (flag (batch_size p <? len (snd b)) E_batch_size ++ flag (negb (fst b =? seq + 1)) E_seqno ++ es, B').
 
   (** the commit nonces after committing exactly the transactions of [txs] *)
@@ -81,24 +90,24 @@ Section Spec.
   Definition live (cm : N -> N) (B : list slot) : list slot := filter (fun sl => cm (fst sl) <=? snd sl) B.
 
   (** batches of an ordinary step: commit nonces do not move *)
-  Fixpoint check_batches (cm : N -> N) (sub : list tx) (B : list slot) (seq : N) (bs : list batch) : list N * list slot * N :=
+  Fixpoint check_batches (lg : list (N * N)) (cm : N -> N) (sub : list tx) (B : list slot) (seq : N) (bs : list batch) : list N * list slot * N :=
     match bs with
     | [] => ([], B, seq)
     | b :: r =>
-        let '(e1, B1) := check_batch cm sub B seq b in
-        let '(e2, B2, seq2) := check_batches cm sub B1 (seq + 1) r in
+        let '(e1, B1) := check_batch lg cm sub B seq b in
+        let '(e2, B2, seq2) := check_batches lg cm sub B1 (seq + 1) r in
         (e1 ++ e2, B2, seq2)
     end.
 
   (** batches of a drain step: each batch is committed before the next is generated *)
-  Fixpoint check_drain (cm : list (N * N)) (sub : list tx) (B : list slot) (seq : N) (bs : list batch)
+  Fixpoint check_drain (lg : list (N * N)) (cm : list (N * N)) (sub : list tx) (B : list slot) (seq : N) (bs : list batch)
     : list N * list slot * N * list (N * N) :=
     match bs with
     | [] => ([], B, seq, cm)
     | b :: r =>
-        let '(e1, B1) := check_batch (fun a => lookup0 a cm) sub B seq b in
+        let '(e1, B1) := check_batch lg (fun a => lookup0 a cm) sub B seq b in
         let cm' := bump cm (snd b) in
-        let '(e2, B2, seq2, cm2) := check_drain cm' sub (live (fun a => lookup0 a cm') B1) (seq + 1) r in
+        let '(e2, B2, seq2, cm2) := check_drain lg cm' sub (live (fun a => lookup0 a cm') B1) (seq + 1) r in
         (e1 ++ e2, B2, seq2, cm2)
     end.
 
@@ -141,8 +150,12 @@ Section Spec.
     let pd := obs_pend ob a in
     (c <=? pd) && (pd - c <=? len univ) && run_held ob a c (N.to_nat (N.min (pd - c) (len univ))).
 
-  Definition ready_unbatched (cm pd : N -> N) (B : list slot) : N :=
-    fold_left (fun acc a => acc + (pd a - (cm a + countB B a))) accts 0.
+  (** a held transaction that is ready (all nonces from the commit nonce up to it are present)
+      and not yet batched *)
+  Definition ready_unbatched_tx (ob : obs) (B : list slot) (t : tx) : bool :=
+    held ob t && (obs_cmt ob (t_acct t) <=? t_nonce t) && (t_nonce t <? obs_pend ob (t_acct t))
+    && negb (mem slot_eqb (slot_of t) B).
+  Definition ready_unbatched (ob : obs) (B : list slot) : N := len (filter (ready_unbatched_tx ob B) univ).
 
   Definition check_step (w : wst) (o : op) (ob : obs) : list N * wst :=
     let prev := w_prev w in
@@ -150,10 +163,15 @@ Section Spec.
     let seq0 := match o with OSetSeq n => n | ORestart h _ => h | _ => w_seq w end in
     let B0 := match o with ORestart _ _ => [] | _ => w_B w end in
     let cm_prev := combine accts (o_cmt prev) in
+    let lg := match o with
+              | ORestart _ led => led
+              | OSetLedger a n => aset N.eqb a n (w_led w)
+              | _ => w_led w
+              end in
     (* C18 *)
     let '(e_b, B1, seq1, cm_exp) :=
-      if is_drain o then check_drain cm_prev sub B0 seq0 (o_batches ob)
-      else let '(e, B, s) := check_batches (obs_cmt prev) sub B0 seq0 (o_batches ob) in (e, B, s, cm_prev) in
+      if is_drain o then check_drain lg cm_prev sub B0 seq0 (o_batches ob)
+      else let '(e, B, s) := check_batches lg (obs_cmt prev) sub B0 seq0 (o_batches ob) in (e, B, s, cm_prev) in
     let e_cur := if is_drain o then []
                  else flag (negb (forallb (fun b : batch => forallb (held ob) (snd b)) (o_batches ob))) E_not_current in
     let e_cn :=
@@ -174,16 +192,15 @@ Section Spec.
                  | OProcess _ _ _ txs => flag (negb (forallb (held ob) (fresh_valid prev (w_sub w) [] txs))) E_not_admitted
                  | _ => []
                  end in
-    let e_flag := flag (existsb (fun a => obs_cmt ob a + countB B2 a <? obs_pend ob a) accts && negb (o_has ob)) E_flag in
+    let e_flag := flag (existsb (fun a => next_batch (obs_cmt ob) B2 a <? obs_pend ob a) accts && negb (o_has ob)) E_flag in
     let e_pend := flag (negb (forallb (pending_exact ob) accts)) E_pending in
     let e_stale := flag (len (filter (fun t => slot_held ob (slot_of t)) (dedup tx_eqb sub)) <? nth 4 (o_dbg ob) 0) E_stale in
     let e_live :=
       match o with
       | ODrain k =>
-          if ready_unbatched (obs_cmt prev) (obs_pend prev) (w_B w) <=? N.of_nat k * batch_size p then
+          if ready_unbatched prev (w_B w) <=? N.of_nat k * batch_size p then
             flag (negb (forallb (fun t =>
-                    negb (held prev t && (obs_cmt prev (t_acct t) <=? t_nonce t) && (t_nonce t <? obs_pend prev (t_acct t))
-                          && negb (mem slot_eqb (slot_of t) (w_B w)))
+                    negb (ready_unbatched_tx prev (w_B w) t)
                     || existsb (fun b : batch => mem tx_eqb t (snd b)) (o_batches ob)) univ)) E_liveness
           else []
       | _ => []
@@ -195,7 +212,7 @@ Section Spec.
                | _ => w_arr w
                end in
     (e_b ++ e_cur ++ e_cn ++ e_lookup ++ e_lost ++ e_adm ++ e_flag ++ e_pend ++ e_stale ++ e_live,
-     mkW B2 seq1 sub arr ob).
+     mkW B2 seq1 sub arr lg ob).
 
   (** all failures of a trace as (code, step index) *)
   Fixpoint check_trace (w : wst) (i : N) (tr : list (op * obs)) : list (N * N) :=
@@ -206,7 +223,7 @@ Section Spec.
         map (fun c => (c, i)) es ++ check_trace w' (N.succ i) r
     end.
 
-  Definition C18_codes : list N := [1; 2; 3; 4; 5; 6; 7; 8].
+  Definition C18_codes : list N := [1; 2; 3; 4; 5; 6; 7; 8; 9].
   Definition C19_codes : list N := [11; 12; 13; 14; 15; 16; 17].
 
   (** the property predicates: no failure with a code of the property *)
@@ -246,6 +263,7 @@ Definition op_small (o : op) : bool :=
   | ORemoveOld now dur => (now <? BIGT) && (dur <? BIGT)
   | OSetSeq n => n <? BIG
   | ORestart h led => (h <? BIG) && forallb (fun e => snd e <? BIG) led
+  | OSetLedger a n => (a <? BIG) && (n <? BIG)
   | _ => true
   end.
 
@@ -288,7 +306,8 @@ Inductive cop :=
 | CRemoveOld (now dur : N)
 | CSetSeq (n : N)
 | CRestart (height : N) (led : list N)
-| CDrain (k : N).
+| CDrain (k : N)
+| CSetLedger (a n : N).
 
 Record cobs := mkCObs {
   co_batches : list (N * list N); co_pend : list N; co_cmt : list N; co_has : bool; co_full : bool;
@@ -305,6 +324,7 @@ Definition decode_op (accts : list N) (univ : list tx) (o : cop) : op :=
   | CSetSeq n => OSetSeq n
   | CRestart h led => ORestart h (combine accts led)
   | CDrain k => ODrain (N.to_nat k)
+  | CSetLedger a n => OSetLedger a n
   end.
 
 Definition decode_obs (univ : list tx) (o : cobs) : obs :=
